@@ -102,7 +102,7 @@ fn std_step<const N: usize>() {
     }
 }
 
-// verif: prop=C13,C11 tier=quick cap=1500 bound="every 68-byte standard path (<= 2 segments, <= 4 hop fields), arbitrary 3-entry interface table (ids, link types, up/down), any clock, any arrival interface; MAC check off" fns="StdRoutingLogic::{handle_standard_path,standard_path_ingress,standard_path_egress},StandardValidator::{validate_hop,validate_segment_change},StandardPathView::advance_*" stubs="tracing dispatcher -> none; MACs ignored (ignore_macs=true)"
+// verif: prop=C13 tier=quick cap=1500 bound="every 68-byte standard path (<= 2 segments, <= 4 hop fields), arbitrary 3-entry interface table (ids, link types, up/down), any clock, any arrival interface; MAC check off" fns="StdRoutingLogic::{handle_standard_path,standard_path_ingress,standard_path_egress},StandardValidator::{validate_hop,validate_segment_change},StandardPathView::advance_*" stubs="tracing dispatcher -> none; MACs ignored (ignore_macs=true)"
 #[kani::proof]
 #[kani::unwind(8)]
 #[kani::stub(tracing::dispatcher::get_default, stub_get_default)]
@@ -241,7 +241,7 @@ fn mac_enforced<const N: usize>() {
     }
 }
 
-// verif: prop=C13,C11 tier=quick cap=1500 replay=model bound="every 68-byte standard path (<= 4 hop fields), MAC check on, MAC = uninterpreted function of (beta,ts,exp,in,eg)" fns="StandardValidator::validate_hop MAC branch via handle_standard_path" stubs="calculate_hop_mac -> memoised nondeterministic function (all functions of the MAC inputs, constant key); tracing -> none"
+// verif: prop=C13 tier=quick cap=1500 replay=model bound="every 68-byte standard path (<= 4 hop fields), MAC check on, MAC = uninterpreted function of (beta,ts,exp,in,eg)" fns="StandardValidator::validate_hop MAC branch via handle_standard_path" stubs="calculate_hop_mac -> memoised nondeterministic function (all functions of the MAC inputs, constant key); tracing -> none"
 #[kani::proof]
 #[kani::unwind(8)]
 #[kani::stub(sciparse::dataplane_path::standard::mac::algo::calculate_hop_mac, mac_stub)]
@@ -292,4 +292,52 @@ fn onehop_step() {
 #[kani::stub(tracing::callsite::DefaultCallsite::register, stub_register)]
 fn c13_onehop_step() {
     onehop_step()
+}
+
+// ------------------------------------------------------------------ packet level: local delivery
+fn hsp_stub(
+    _l: IsdAsn,
+    _p: &mut StandardPathView,
+    _i: u16,
+    _n: ScionNetworkTime,
+    _k: &ForwardingKey,
+    _f: &impl Fn(u16) -> Option<AsRoutingInterfaceState>,
+    _m: bool,
+) -> Result<AsRoutingAction, standard::StandardRoutingError> {
+    match kani::any::<u8>() % 4 {
+        0 => Ok(AsRoutingAction::Local(LocalAsRoutingAction::ForwardLocal)),
+        1 => Ok(AsRoutingAction::ForwardNextHop { egress_interface_id: kani::any() }),
+        2 => Ok(AsRoutingAction::Drop),
+        _ => Err(standard::StandardRoutingError::AdvanceFailed(sciparse::dataplane_path::standard::routing::AdvanceError::HopOutOfBounds(0))),
+    }
+}
+
+/// Whatever the per-path step answers, a packet is delivered locally only in its destination AS.
+fn route_local<const N: usize>() {
+    let local: u64 = kani::any();
+    let ingress: u16 = kani::any();
+    let now: u32 = kani::any();
+    let t = Table::any();
+    let mut buf: [u8; N] = kani::any();
+    let key = [7u8; 16];
+    let lookup = |id: u16| t.lookup(id);
+    let Ok((pkt, _)) = ScionRawPacketView::try_from_mut_slice(&mut buf[..]) else { return };
+    let local = IsdAsn::from_u64(local);
+    let res = SpecRoutingLogic::route(local, pkt, ingress, ScionNetworkTime(now), &key, lookup, true);
+    if let Ok(AsRoutingAction::Local(LocalAsRoutingAction::ForwardLocal)) = res {
+        kani::cover!(matches!(pkt.header().path(), ScionDpPathViewRef::Standard(_)), "standard-path packet delivered locally");
+        kani::cover!(matches!(pkt.header().path(), ScionDpPathViewRef::Empty), "empty-path packet delivered locally");
+        assert!(pkt.header().dst_ia() == local, "packet delivered locally outside its destination AS");
+    }
+}
+
+// verif: prop=C13 tier=quick cap=1500 bound="every packet <= 76 bytes (IPv4..., empty / one-hop / standard path with 2 hop fields), any local AS; the per-path step of standard paths answers arbitrarily" fns="SpecRoutingLogic::route (non-local delivery check),OneHopRoutingLogic::handle_one_hop_path" stubs="StdRoutingLogic::handle_standard_path -> arbitrary verdict (its own obligations: c13_std_step_*); calculate_hop_mac -> uninterpreted; tracing -> none"
+#[kani::proof]
+#[kani::unwind(8)]
+#[kani::stub(standard::StdRoutingLogic::handle_standard_path, hsp_stub)]
+#[kani::stub(sciparse::dataplane_path::standard::mac::algo::calculate_hop_mac, mac_stub)]
+#[kani::stub(tracing::dispatcher::get_default, stub_get_default)]
+#[kani::stub(tracing::callsite::DefaultCallsite::register, stub_register)]
+fn c13_route_local_n76() {
+    route_local::<76>()
 }
